@@ -1,5 +1,132 @@
-import QlibcModel.Encode.Model
+/-
+  C16 — encoders and decoders are exact inverses and emit the standard formats.
+
+  All theorems are about the model `QlibcModel/Encode/Model.lean` (hand transcription of
+  qencode.c with the five lookup tables regenerated from the current source) and hold for ALL
+  byte strings — no bound on the length. The decoders are the in-place raw-buffer versions:
+  "`= .ok …`" includes "no read or write outside the buffer `enc ++ [0]`".
+-/
+import QlibcModel.Encode.Base64
+import QlibcModel.Encode.Query
+
 namespace Qlibc.Props.C16
-open Qlibc.Generated
-theorem urlCharTbl_length : urlCharTbl.length = 256 := by decide +kernel
+open Qlibc Qlibc.Encode Qlibc.Generated
+
+/-- lowercase hexadecimal digit, written independently of the C code -/
+def hexDigitLower (n : UInt8) : UInt8 := [48, 49, 50, 51, 52, 53, 54, 55, 56, 57, 97, 98, 99, 100, 101, 102].getD n.toNat 0
+def hexDigitUpper (n : UInt8) : UInt8 := [48, 49, 50, 51, 52, 53, 54, 55, 56, 57, 65, 66, 67, 68, 69, 70].getD n.toNat 0
+
+/-- the bytes `qurl_encode` copies literally -/
+def urlSafe (c : UInt8) : Bool := tbl urlCharTbl c.toNat != 0
+
+/-! ### the tables indexed by a byte have 256 entries (so `tbl` never falls back to its default) -/
+theorem table_lengths :
+    urlCharTbl.length = 256 ∧ b64MapTbl.length = 256 ∧ hexMapTbl.length = 256 ∧
+    b64CharTbl.length = 64 ∧ hexCharTbl.length = 16 := by decide +kernel
+
+/-! ### URL -/
+
+/-- `qurl_encode` emits a safe byte literally and every other byte as `%hh`, lowercase -/
+theorem url_format (x : Bytes) :
+    urlEncode x = x.flatMap (fun c =>
+      if urlSafe c then [c] else [37, hexDigitLower (c / 16), hexDigitLower (c % 16)]) := by
+  have h : ∀ c : UInt8, urlEncByte c =
+      if urlSafe c then [c] else [37, hexDigitLower (c / 16), hexDigitLower (c % 16)] := by
+    apply forall_uint8; decide +kernel
+  simp only [urlEncode]
+  congr 1
+  funext c
+  exact h c
+
+/-- only URL-safe ASCII is emitted literally: never a blank, control or non-ASCII byte, nor any
+    of `% + & = ? # " < >` -/
+theorem url_safe_set (c : UInt8) (h : urlSafe c = true) :
+    0x21 ≤ c ∧ c < 0x7f ∧ c ∉ [37, 43, 38, 61, 63, 35, 34, 60, 62] := by
+  revert c; apply forall_uint8; decide +kernel
+
+/-- decoding the URL-encoding of any byte string yields exactly that string, its length, and a
+    terminator — without leaving the buffer -/
+theorem url_roundtrip (x : Bytes) :
+    ∃ buf, urlDecodeRaw (urlEncode x ++ [0]) = .ok (buf, x.length) ∧
+      buf.take x.length = x ∧ buf[x.length]? = some 0 := by
+  obtain ⟨stale, h⟩ := urlDecodeRaw_spec (urlEncode x) (urlEncode_ne_zero x)
+  rw [urlDecPure_urlEncode] at h
+  exact ⟨_, h, by simp, by simp⟩
+
+/-- the decoder accepts both hex-digit cases: all four spellings of `%hh` give the byte -/
+theorem url_decode_cases (b : UInt8) :
+    x2c (hexDigitLower (b / 16)) (hexDigitLower (b % 16)) = b ∧
+    x2c (hexDigitLower (b / 16)) (hexDigitUpper (b % 16)) = b ∧
+    x2c (hexDigitUpper (b / 16)) (hexDigitLower (b % 16)) = b ∧
+    x2c (hexDigitUpper (b / 16)) (hexDigitUpper (b % 16)) = b := by
+  revert b; apply forall_uint8; decide +kernel
+
+/-- what `qurl_decode` computes on ANY NUL-free input: `+` ↦ blank, `%hh` ↦ byte, a truncated
+    escape and every other byte literally (`urlDecPure`), in place and inside the buffer -/
+theorem url_decode_eq_pure (s : Bytes) (hnz : ∀ c ∈ s, c ≠ 0) :
+    ∃ stale, urlDecodeRaw (s ++ [0]) = .ok (urlDecPure s ++ 0 :: stale, (urlDecPure s).length) :=
+  urlDecodeRaw_spec s hnz
+
+theorem url_decode_plus (rest : Bytes) : urlDecPure (43 :: rest) = 32 :: urlDecPure rest := by
+  rw [urlDecPure_cons_ne rest (by decide)]; rfl
+
+theorem url_decode_escape (h l : UInt8) (rest : Bytes) :
+    urlDecPure (37 :: h :: l :: rest) = x2c h l :: urlDecPure rest := urlDecPure_pct h l rest
+
+/-! ### Base64 -/
+
+/-- `qbase64_encode` emits RFC 4648: standard alphabet, 3→4 groups, `=` padding
+    (`rfc4648` is written from the RFC with 24-bit group arithmetic, `Encode/Base64.lean`) -/
+theorem b64_format (x : Bytes) : b64Encode x = rfc4648 x := b64Encode_eq_rfc x
+
+theorem b64_alphabet : b64CharTbl = b64Alphabet := b64CharTbl_eq_alphabet
+
+theorem b64_roundtrip (x : Bytes) :
+    ∃ buf, b64DecodeRaw (b64Encode x ++ [0]) = .ok (buf, x.length) ∧
+      buf.take x.length = x ∧ buf[x.length]? = some 0 := by
+  have hnz : ∀ d ∈ b64Encode x, d ≠ 0 := by rw [b64Encode_eq_rfc]; exact rfc4648_ne_zero x
+  obtain ⟨stale, h⟩ := b64DecodeRaw_spec (b64Encode x) hnz
+  rw [b64Encode_eq_rfc, b64DecPure_rfc] at h
+  rw [b64Encode_eq_rfc]
+  exact ⟨_, h, by simp, by simp⟩
+
+/-! ### hex -/
+
+/-- two lowercase hex digits per byte -/
+theorem hex_format (x : Bytes) :
+    hexEncode x = x.flatMap (fun c => [hexDigitLower (c / 16), hexDigitLower (c % 16)]) := by
+  have h : ∀ c : UInt8, [tbl hexCharTbl (c >>> 4).toNat, tbl hexCharTbl (c &&& 0x0F).toNat]
+      = [hexDigitLower (c / 16), hexDigitLower (c % 16)] := by
+    apply forall_uint8; decide +kernel
+  simp only [hexEncode, h]
+
+theorem hex_roundtrip (x : Bytes) :
+    ∃ buf, hexDecodeRaw (hexEncode x ++ [0]) = .ok (buf, x.length) ∧
+      buf.take x.length = x ∧ buf[x.length]? = some 0 := by
+  obtain ⟨stale, h⟩ := hexDecodeRaw_spec (hexEncode x) (hexEncode_ne_zero x)
+  rw [hexDecPure_hexEncode] at h
+  exact ⟨_, h, by simp, by simp⟩
+
+/-- the hex decoder accepts both digit cases -/
+theorem hex_decode_cases (b : UInt8) :
+    hexDecPure [hexDigitLower (b / 16), hexDigitLower (b % 16)] = [b] ∧
+    hexDecPure [hexDigitLower (b / 16), hexDigitUpper (b % 16)] = [b] ∧
+    hexDecPure [hexDigitUpper (b / 16), hexDigitLower (b % 16)] = [b] ∧
+    hexDecPure [hexDigitUpper (b / 16), hexDigitUpper (b % 16)] = [b] := by
+  revert b; apply forall_uint8; decide +kernel
+
+/-! ### query strings -/
+
+/-- a query string assembled from URL-encoded names and values (any NUL-free byte strings,
+    including empty ones) parses back into exactly those pairs, in order -/
+theorem query_roundtrip (ps : List (Bytes × Bytes))
+    (hnz : ∀ p ∈ ps, (∀ d ∈ p.1, d ≠ 0) ∧ (∀ d ∈ p.2, d ≠ 0)) :
+    parseQueries (renderQuery ps) 61 38 = .ok ps := parseQueries_render ps hnz
+
+/-! ### non-vacuity: the statements speak about non-trivial data -/
+example : urlEncode [97, 32, 255] = [97, 37, 50, 48, 37, 102, 102] := by decide +kernel
+example : b64Encode [102, 111, 111, 98] = [90, 109, 57, 118, 89, 103, 61, 61] := by decide +kernel
+example : renderQuery [([97], [32]), ([98, 38], [])] = [97, 61, 37, 50, 48, 38, 98, 37, 50, 54, 61] := by
+  decide +kernel
+
 end Qlibc.Props.C16
